@@ -351,6 +351,17 @@ def _content_case(res, pos, s, q, record=True):
         res.nontrivial += 1
     probe = Result(res.seed)
     ok = roundtrip(probe, sheet, case, 'X')
+    if ok and any(ord(c) > 127 for c in s):
+        # the same DOM under a sheet encoding that cannot hold the character: it is written as an escape, whose terminator
+        # must not merge with what follows (white space, line break, hex digit)
+        try:
+            sheet.encoding = 'ascii'
+            case = dict(case, sheet_encoding='ascii')
+            ok = roundtrip(probe, sheet, case, 'X')
+            res.counters['content_cases_also_under_ascii'] += 1 if record else 0
+        except Exception as e:
+            probe.violation('C03.lossless', guard.crash_site(e) + '|X', case, 'round trip', repr(e)[:200])
+            ok = False
     if record:
         res.clauses.update(probe.clauses)
         res.outcomes |= probe.outcomes
@@ -383,7 +394,12 @@ def _content_case(res, pos, s, q, record=True):
                     sh = cssutils.CSSParser(fetcher=lambda u: None).parseString(c2)
                 except BaseException:
                     return False
-                roundtrip(r2, sh, {}, 'X')
+                if roundtrip(r2, sh, {}, 'X') and any(ord(c) > 127 for c in t):
+                    try:
+                        sh.encoding = 'ascii'
+                        roundtrip(r2, sh, {}, 'X')
+                    except Exception:
+                        return True
                 return any(x['clause'] == _clause for x in r2.violations.values())
 
             ess = essential_chars(pos, s, q, fails)
